@@ -584,6 +584,7 @@ View == <<prog, pc, m>>
 Emit ==
     IF last' = "Finish"
     THEN PrintT(<<"PROG", ToJson([family |-> prog.family, class |-> prog.c, tags |-> Tags(prog), nevents |-> Len(evs),
+                                  callbacks |-> [n \in {evs[i].e : i \in DOMAIN evs} |-> Cardinality({i \in DOMAIN evs : evs[i].e = n})],
                                   expect |-> Expected(prog.c),
                                   model |-> Outcome(m),
                                   asbuilt |-> Outcome(RunAll(prog.c, AsBuilt))])>>)
